@@ -66,7 +66,7 @@ def wrap(behaviours, cfg_text, src):
     return [{"c": c, "src": src, "steps": b} for b in behaviours if b]
 
 
-def mc(ctx, base, name, consts=None, invariants=None, properties=None, export=False, timeout=900, coverage=False):
+def mc(ctx, base, name, consts=None, invariants=None, properties=None, export=False, timeout=1800, coverage=False):
     """One TLC run of MetaDBMC with a derived cfg.  With export=True the behaviours through every
     explored transition are returned wrapped for the driver."""
     c = dict(consts or {})
@@ -81,7 +81,7 @@ def mc(ctx, base, name, consts=None, invariants=None, properties=None, export=Fa
     return res, items
 
 
-def expect_model_violation(ctx, base, name, consts, invariants, properties, expect, timeout=900):
+def expect_model_violation(ctx, base, name, consts, invariants, properties, expect, timeout=1800):
     """Non-vacuity: a deliberately broken instance (a defect switched back on) must make the named
     invariant / action property fire; otherwise the invariant is dead and the check is broken."""
     text = variant(read_cfg(base), consts, invariants, properties)
@@ -190,7 +190,7 @@ def real_constants_script(rnd):
     return {"ops": ops}
 
 
-def scripts(ctx, name, families, n, length, budget, invariants, properties, salt=0, timeout=1200, max_snaps=3, fixed=None):
+def scripts(ctx, name, families, n, length, budget, invariants, properties, salt=0, timeout=3600, max_snaps=3, fixed=None):
     """Generate n seeded scripts (or take the given ones), let MetaDBScript follow them (checking the
     given invariants and action properties in every state) and return the behaviours wrapped for
     the driver."""
@@ -281,7 +281,7 @@ def validate_traces(ctx, mode, res, items, stage):
         with open(path) as f:
             lines = f.read().splitlines()
         runs = sum(1 for x in lines if '"ev":"Begin"' in x)
-        tv = ctx.tlc("MetaDBTrace", "gen.cfg", workers=1, files={"gen.cfg": text, "trace.ndjson": path}, timeout=1800,
+        tv = ctx.tlc("MetaDBTrace", "gen.cfg", workers=1, files={"gen.cfg": text, "trace.ndjson": path}, timeout=7200,
                      name="%s trace %s" % (stage, key), expect_violation=True, keep_beh=False,
                      constants={"budget": [mb, step, bonus, glob], "runs": runs, "lines": len(lines)})
         if not tv.violated:
@@ -311,7 +311,7 @@ def validate_traces(ctx, mode, res, items, stage):
     return accepted
 
 
-def drive(ctx, mode, items, stage, timeout=2400):
+def drive(ctx, mode, items, stage, timeout=7200):
     """Replay the behaviours on the real DBV2.  Returns the driver result; mismatches become
     violations of the calling property (signature = mismatch class)."""
     res, out, rc = ctx.go_test(PKG, TEST, inp=items, env={"VERIF_MODE": mode, "VERIF_WORKERS": 10}, timeout=timeout)
